@@ -10,15 +10,16 @@ from .. import recon as R
 ID = "C06"
 LEVEL = "proof"
 PROP_FILE = "Properties/C06.v"
-PROOF_FILES = ["Proofs/ChargedEdgesProofs.v", "Proofs/LabelCostProofs.v", "Proofs/ReconProofs.v", "Proofs/PathFacts.v", "Proofs/SubseqProofs.v",
+PROOF_FILES = ["Gen/EvalGen.v", "Proofs/EvalGenProofs.v", "Gen/SubseqGen.v", "Proofs/SubseqGenProofs.v", "Proofs/ChargedEdgesProofs.v", "Proofs/LabelCostProofs.v", "Proofs/ReconProofs.v", "Proofs/PathFacts.v", "Proofs/SubseqProofs.v",
                "Model/Recon.v", "Model/Subseq.v", "Base/PathB.v", "Base/Ext.v"]
-TRUSTED = ["model Model/Recon.v of node_event/_cost_rec/_ordered_labeling_cost/_unordered_labeling_cost over bool root paths (C17 ties ancestry to the code, C18 the masks)"]
+TRUSTED = ["translator translator/pyfun.py + the type table in translator/eval_gen.py: node_event, _cost_rec, cost and the labelled cost functions of model/reconciliation.py are translated statement by statement into Gen/EvalGen.v on every run and proved equal to Model/Recon.v (object nodes = identifiers, node-keyed dictionaries = total functions, the species LCA structure = a parameter instantiated with the path operations)",
+           "model Model/Recon.v of node_event/_cost_rec/_ordered_labeling_cost/_unordered_labeling_cost over bool root paths (C17 ties ancestry to the code, C18 the masks)"]
 ASSUMES = ["binary trees", "infinity.inf adds like an extended integer"]
 RULE = ("cases = (species tree, object tree with leaf species, a species for every object node [valid ones from an enumerator independent of the package, plus invalid ones], "
         "optionally a synteny for every node, cost vector); non-trivial = at least one duplication or transfer, or a labelled case with at least one lost run")
 OPEN_GOALS: list = []
-TECHNIQUE = "Coq proof (induction on reconciliations; bit/list induction for masks) that the evaluator model equals an explicit recount; model tied to node_event/cost()/labeling_cost() by exhaustive small + random cases"
-LEVEL_TEXT = ("Machine-checked for all trees and cost vectors: the evaluator's cost of a valid reconciliation = unit costs x event counts + full-loss cost x the length of explicit loss lists; "
+TECHNIQUE = "translator tie: the evaluator is regenerated into Gallina on every run and proved equal to the model; Coq proof (induction on reconciliations; bit/list induction for masks) that the evaluator model equals an explicit recount; model tied to node_event/cost()/labeling_cost() by exhaustive small + random cases"
+LEVEL_TEXT = ("The evaluator itself (node_event, _cost_rec, cost, reconciliation_cost, _ordered_labeling_cost, _unordered_labeling_cost, labeling_cost) is translated from the source on every run and proved equal to the model for all inputs (C06_gen_*; the unordered count under sloss >= 0: with a negative segmental-loss cost code and model differ, kernel-checked example negative_sloss_differs, outside every property's domain). Machine-checked for all trees and cost vectors: the evaluator's cost of a valid reconciliation = unit costs x event counts + full-loss cost x the length of explicit loss lists; "
               "events classified exactly as the geometric definitions; ordered labelling cost = sloss x lost runs of families (via C18), unordered = sloss x the number of charged lossy edges, proved against a specification written from the event rules (C06_unordered_labeling_charged_edges; C06_unordered_labeling_recount is the definitional unfolding). "
               "Model compared with node_event, reconciliation_cost, labeling_cost, cost on every valid mapping of small inputs, random larger ones, and invalid mappings/labellings.")
 LEVEL_NOTE = ("Trusted: Coq kernel; hand-written model (correspondence = differential testing); C17/C18 for ancestry and masks. No axioms. "
@@ -83,6 +84,14 @@ def _prime_eval(B, out, c, evaluate):
         pass
     B.input.costs.clear()
     B.input.costs.update(real)
+
+
+def pre_build(ctx):
+    from translator import eval_gen, subseq_gen
+    from .. import core
+    a = subseq_gen.regenerate(core.REPO)
+    b = eval_gen.regenerate(core.REPO)
+    ctx.notes.append("Gen/EvalGen.v, Gen/SubseqGen.v " + ("regenerated (content changed)" if (a or b) else "regenerated: unchanged"))
 
 
 def batches(ctx):
